@@ -93,7 +93,7 @@ func closureCheck(t reflect.Type, tm map[string]reflect.Type, nm map[string]stri
 func init() {
 	core.Register(&core.Prop{
 		ID: "C16", Level: "model_checking",
-		Rule: "Exhaustive enumeration: every zoo type (incl. recursive, mutually recursive, embedded, custom-named, slices of slices, named map) x every witness shape within k deviations of the pointer/slice/map/interface slots (nil, empty, populated, aliased and cyclic; scalars at default), plus the zero value and a pointer to it, through ExtractTypeNameMap, TypeMapFrom, NameMapFrom and TypeMapOf. Oracle: (i) the call returns (a stack overflow kills the worker and is attributed to the case); (ii) closure against an independent static type walk: every struct and non-byte slice type reachable from the type is in the name map, under its custom name where declared, and the type map maps that wire name back to the Go type; TypeMapOf contains every reachable struct type; (iii) sufficiency: with the maps of witness w every other value u of the type (<=1 deviation) round-trips exactly as in C01. Non-trivial = witness or u deviates; distinct by (type, witness, u).",
+		Rule:        "Exhaustive enumeration: every zoo type (incl. recursive, mutually recursive, embedded, custom-named, slices of slices, named map) x every witness shape within k deviations of the pointer/slice/map/interface slots (nil, empty, populated, aliased and cyclic; scalars at default), plus the zero value and a pointer to it, through ExtractTypeNameMap, TypeMapFrom, NameMapFrom and TypeMapOf. Oracle: (i) the call returns (a stack overflow kills the worker and is attributed to the case); (ii) closure against an independent static type walk: every struct and non-byte slice type reachable from the type is in the name map, under its custom name where declared, and the type map maps that wire name back to the Go type; TypeMapOf contains every reachable struct type; (iii) sufficiency: with the maps of witness w every other value u of the type (<=1 deviation) round-trips exactly as in C01. Non-trivial = witness or u deviates; distinct by (type, witness, u).",
 		Assumptions: []string{"interface{} slots are outside the static closure (their dynamic types cannot be known from the type)", "slice types sharing one wire name may be mapped to any of them"},
 		Units: func(tier string) []core.Unit {
 			var us []core.Unit
